@@ -87,6 +87,9 @@ pub enum Call {
     Contains(u64, f64, f64),
     /// a5::core::coordinate_transforms::from_lon_lat((lon, lat)) followed by to_cartesian
     FromLonLat(f64, f64),
+    /// a call that the library rejects: the thread's projection asked to project relative to face id >= 12
+    /// (forward or inverse); whatever it returns, it must leave nothing behind
+    Rejected(u8, bool),
 }
 
 fn bits(p: &LonLat) -> String {
@@ -111,6 +114,15 @@ pub fn exec(c: &Call) -> String {
         Call::Area(r) => format!("{:016x} {}", a5::cell_area(*r).to_bits(), a5::get_num_cells(*r)),
         Call::Anchor(sv, n, o) => format!("{:?}", a5::core::hilbert::s_to_anchor(*sv, *n, crate::tables::ori_of(*o))),
         Call::IjToS(i, j, n, o) => format!("{:?}", a5::core::hilbert::ij_to_s(a5::coordinate_systems::IJ::new(*i, *j), *n, crate::tables::ori_of(*o))),
+        Call::Rejected(origin, fwd) => {
+            let d = DodecahedronProjection::get_thread_local();
+            if *fwd {
+                let sp = a5::coordinate_systems::Spherical::new(a5::coordinate_systems::Radians::new_unchecked(0.3), a5::coordinate_systems::Radians::new_unchecked(0.4));
+                format!("{:?}", d.forward(sp, *origin).map(|f| (f.x().to_bits(), f.y().to_bits())))
+            } else {
+                format!("{:?}", d.inverse(Face::new(0.1, 0.2), *origin).map(|s| (s.theta().get().to_bits(), s.phi().get().to_bits())))
+            }
+        }
         Call::FromLonLat(lon, lat) => {
             let sp = a5::core::coordinate_transforms::from_lon_lat(LonLat::new(*lon, *lat));
             let c = a5::core::coordinate_transforms::to_cartesian(sp);
@@ -283,6 +295,13 @@ pub fn search_c13(rng: &mut Rng, thorough: bool) -> SearchResult {
                         calls.push(Call::Lookup(ll.longitude(), ll.latitude(), rng.range_i(0, 4) as i32));
                     }
                 }
+            } else if rng.chance(1, 10) {
+                // a rejected call followed by ordinary ones: an error path must not leave a flag, a lock or a
+                // half-filled slot behind
+                calls.push(Call::Rejected(12 + rng.below(40) as u8, rng.chance(1, 2)));
+                calls.push(random_call(rng));
+                let (lon, lat) = uniform_point(rng);
+                calls.push(Call::Lookup(lon, lat.clamp(-60.0, 60.0), rng.range_i(2, 20) as i32));
             } else if rng.chance(1, 8) {
                 // nearly equal arguments back to back (one or a few ulps, 1e-11 degrees apart): a memo that compares
                 // its key with a tolerance, or by a rounded value, answers the second call with the first result
@@ -341,7 +360,7 @@ pub fn search_c13(rng: &mut Rng, thorough: bool) -> SearchResult {
             let c2 = c.clone();
             let fresh = thread::spawn(move || exec(&c2)).join().unwrap();
             r.evaluations += 1;
-            if matches!(c, Call::Lookup(..) | Call::Centre(..) | Call::Boundary(..) | Call::Nearest(..) | Call::Anchor(..) | Call::IjToS(..) | Call::Contains(..) | Call::FromLonLat(..)) {
+            if matches!(c, Call::Lookup(..) | Call::Centre(..) | Call::Boundary(..) | Call::Nearest(..) | Call::Anchor(..) | Call::IjToS(..) | Call::Contains(..) | Call::FromLonLat(..) | Call::Rejected(..)) {
                 r.nontrivial += 1;
             }
             if &fresh != want {
